@@ -804,6 +804,7 @@ func (fr *Frame) mapUpdate(x *ssa.MapUpdate, st *State) {
 	fr.vc.check(st, "nil", "mapupdate:"+fr.label(x.Map), Not(Eq(m, TNil)), x.Pos())
 	key := mapKeyTerm(fr.get(x.Key))
 	cell := fr.mapCell(m, key)
+	fr.frameCheck(st, cell, mt.Elem(), "map:"+fr.label(x.Map), x.Pos())
 	st.Heap["M:has"] = Store(st.heapGet("M:has"), cell, TTrue)
 	st.store(cell, mt.Elem(), fr.get(x.Value))
 }
